@@ -28,6 +28,7 @@ func init() {
 			{"C15.put-verifies", "uploaded chunk is built by the verifying constructor and stored only if that succeeded", 3, c15PutVerifies},
 			{"C15.confinement", "only a parsed ChunkID / path.Base name reaches the store; file names are built from the id", 8, c15Confinement},
 			{"C15.id-parse-exact", "a path element parses as a chunk id only if it is exactly 64 hex digits (shared with C16/C20)", 1, c20IDParseExact},
+			{"C15.flag-owners", "the variables behind --writeable, --authorization and the verify switches are set by those flags only (shared with C03)", 8, func(c *Ctx) { c.flagOwners() }},
 		},
 	})
 }
